@@ -113,7 +113,7 @@ class Sched(object):
                 raise HarnessTimeout('thread %s did not come back' % tid)
 
 
-def install(sched, remote_module):
+def install(sched, remote_module, fail_first_launch=False):
     """Build an Environment wired to the scheduler. Returns (env, restore)"""
     R = remote_module
 
@@ -188,7 +188,14 @@ def install(sched, remote_module):
     for attr in dir(env):
         pass
 
+    state = {'fail': bool(fail_first_launch)}
+
     def fake_run():
+        if state['fail']:
+            state['fail'] = False
+            sched.failed_launches = getattr(sched, 'failed_launches', 0) + 1
+            sched.failed_in = _tls.tid
+            raise OSError('injected launch failure')
         sched.launches += 1
         sched.max_live = max(sched.max_live, sched.launches - sched.closes)
         env.proc = object()
